@@ -109,6 +109,8 @@ package consensus
 //@   ensures [nothing-to-do] committedBlock.view >= block.view ==> result == nil && tracelen(added) == old(tracelen(added)) && cm.viewStates.committedBlock == committedBlock
 //@   ensures [commits-block] result == nil && committedBlock.view < block.view ==> cm.viewStates.committedBlock == block && tracelen(added) >= old(tracelen(added)) + 3 && cblk(tracelen(added) - 3) == block
 //@   ensures [monotone] cm.viewStates.committedBlock.view >= committedBlock.view
+//@   ensures [stores] blockchain.entrieskept()
+//@   ensures [down-to-the-committed-view] result == nil && committedBlock.view < block.view ==> has(cm.blockchain.blocks, cblk(old(tracelen(added))).parent) && cm.blockchain.blocks[cblk(old(tracelen(added))).parent].view <= committedBlock.view
 //@   ensures [triples] tracelen(added) >= old(tracelen(added)) && (tracelen(added) - old(tracelen(added))) % 3 == 0
 //@   ensures [events] forall i int :: {traceat(added, 0, i), traceat(added, 0, i + 1)} old(tracelen(added)) <= i && i < tracelen(added) && (i - old(tracelen(added))) % 3 == 0 ==> istype(traceev(added, 0, i), hotstuff.CommitEvent) && istype(traceev(added, 0, i + 1), clientpb.ExecuteEvent) && cblk(i) != nil && as(traceev(added, 0, i + 1), clientpb.ExecuteEvent).Batch == cblk(i).batch && cblk(i).view > committedBlock.view && cblk(i).view <= block.view
 //@   ensures [no-aborts] forall i int :: {traceat(added, 0, i)} old(tracelen(added)) <= i && i < tracelen(added) ==> !istype(traceev(added, 0, i), clientpb.AbortEvent)
